@@ -10,6 +10,7 @@ import (
 	"os"
 	"path/filepath"
 	"sort"
+	"strconv"
 	"strings"
 	"sync/atomic"
 
@@ -105,11 +106,30 @@ func sortLogNamesOldToNew(dirEntries []os.DirEntry) []string {
 	//   audit.log  audit.log.1  audit.log.2  audit.log.3  audit.log.4
 	//   $ test-app /var/log/audit/
 	//   [audit.log.4 audit.log.3 audit.log.2 audit.log.1 audit.log]
+	//
+	// The rotation number is compared numerically so that
+	// "audit.log.10" is older than "audit.log.9".
 	sort.Slice(oldestToNew, func(i, j int) bool {
+		ni, nj := rotationNumber(oldestToNew[i]), rotationNumber(oldestToNew[j])
+		if ni != nj {
+			return ni > nj
+		}
+
 		return oldestToNew[i] > oldestToNew[j]
 	})
 
 	return oldestToNew
+}
+
+// rotationNumber returns N for "audit.log.N" and zero for the live
+// "audit.log" file (or any name without a numeric suffix).
+func rotationNumber(name string) int {
+	n, err := strconv.Atoi(strings.TrimPrefix(name, "audit.log."))
+	if err != nil {
+		return 0
+	}
+
+	return n
 }
 
 // LogDirReader reads audit logs from a directory and tails the active
